@@ -140,8 +140,11 @@ Arguments e_sin {A} _.
 Arguments e_u {A} _ _.
 Arguments Build_env {A} _ _ _.
 
-(* Q *)
-Definition evalQ : env Q -> cexp -> Q := eval Q (fun q => q) Qplus Qmult Qopp.
+(* Q, every intermediate result kept in lowest terms (Qred x == x; it only keeps the numerals of
+   the correspondence small: sums of binary64 values stay dyadic instead of multiplying denominators) *)
+Definition qadd (x y : Q) : Q := Qred (x + y).
+Definition qmul (x y : Q) : Q := Qred (x * y).
+Definition evalQ : env Q -> cexp -> Q := eval Q Qred qadd qmul Qopp.
 
 (* Q(sqrt 2): (a, b) = a + b*sqrt 2 *)
 Definition q2 := (Q * Q)%type.
@@ -163,9 +166,9 @@ Definition q2R (x : q2) : R := (Q2R (fst x) + Q2R (snd x) * sqrt 2)%R.
 (* Exact arithmetic: the order of the summation is immaterial; rounding is not modelled.  *)
 (* ------------------------------------------------------------------------------------ *)
 
-Definition kappaQ (l : list Q) : Q := fold_right (fun x acc => (Qabs x + acc)%Q) (0#1)%Q l.
-Definition probsQ (l : list Q) : list Q := map (fun c => (Qabs c / kappaQ l)%Q) l.
-Definition overheadQ (l : list Q) : Q := (kappaQ l * kappaQ l)%Q.
+Definition kappaQ (l : list Q) : Q := fold_right (fun x acc => qadd (Qabs x) acc) (0#1)%Q l.
+Definition probsQ (l : list Q) : list Q := map (fun c => Qred (Qabs c / kappaQ l)) l.
+Definition overheadQ (l : list Q) : Q := qmul (kappaQ l) (kappaQ l).
 Definition sumQ (l : list Q) : Q := fold_right Qplus (0#1)%Q l.
 
 Definition kappaR (l : list R) : R := fold_right (fun x acc => (Rabs x + acc)%R) 0%R l.
@@ -209,7 +212,7 @@ Definition get_kappa (p : bphase) : option Q := match p with Ready _ s => Some (
 Definition get_probs (p : bphase) : option (list Q) := match p with Ready _ s => Some (st_probs s) | _ => None end.
 Definition get_coeffs (p : bphase) : option (list Q) := match p with Ready _ s => Some (st_coeffs s) | _ => None end.
 Definition get_overhead (p : bphase) : option Q :=
-  match p with Ready _ s => Some (st_kappa s * st_kappa s)%Q | _ => None end.
+  match p with Ready _ s => Some (qmul (st_kappa s) (st_kappa s)) | _ => None end.
 
 (* ------------------------------------------------------------------------------------ *)
 (* registry dispatch: gate name -> which coefficient list, at which angle                 *)
@@ -329,7 +332,7 @@ Definition theta_affine (name : string) : option (Q * Q) :=
   match family_of_name name with FRot p q => Some (p, q) | _ => None end.
 
 Definition u_from_csQ (cs : list (Q * Q)) : list (Q * Q) :=
-  map (u_from_cs Q (fun q => q) Qplus Qmult cs) [0; 1; 2; 3]%nat.
+  map (u_from_cs Q Qred qadd qmul cs) [0; 1; 2; 3]%nat.
 Definition nonlocal_coeffsQ (u : list (Q * Q)) : list Q := map (evalQ (env_uQ u)) nonlocal_exprs.
 
 (* ------------------------------------------------------------------------------------ *)
